@@ -359,12 +359,20 @@ def run(ctx):
                     and any(isinstance(x, ast.Attribute) and x.attr == 'res_num' for x in ast.walk(node))):
                 arith.append(fid)
             if isinstance(node, ast.Call) and call_name(node) == 'ord' and \
-                    'chain_id' in norm(node):
+                    'chain_id' in norm(node) and isinstance(node._parent, (ast.BinOp, ast.AugAssign)):
                 arith.append(fid)
-    ctx.ob('C06.R3', 'numbering:arithmetic-only-in-sort-key',
-           set(arith) <= {('conformation_container', 'ConformationContainer.sort_atoms_key')},
-           'residue numbers and chain codes enter arithmetic only in the atom sort key (%s)'
-           % sorted(set(arith)), cc, cc.func('ConformationContainer.sort_atoms_key'))
+    ctx.ob('C06.R3', 'numbering:arithmetic-only-in-sort-key', not arith,
+           'residue numbers and chain codes never enter arithmetic - not even in the atom sort key: '
+           'a key that folds chain and residue number into one number (ord(chain)*1e7 + number*1000) '
+           'lets large or negative numbers reach into the neighbouring chain, and the atom order '
+           'feeds the order of floating-point sums (%s)' % sorted(set(arith)), cc,
+           cc.func('ConformationContainer.sort_atoms_key'))
+    sk = cc.func('ConformationContainer.sort_atoms_key')
+    sk_rets = [r for r in walk_no_nested(sk) if isinstance(r, ast.Return) and r.value is not None]
+    sk_ok = bool(sk_rets) and all(isinstance(r.value, ast.Tuple) for r in sk_rets)
+    ctx.ob('C06.R3', 'sort-key:lexicographic-tuple', sk_ok,
+           'the atom sort key is a tuple compared component by component', cc,
+           sk_rets[0] if sk_rets else sk)
     ordered = []
     for fid in sorted(reach):
         fn = cg.funcs[fid]
